@@ -336,7 +336,7 @@ def na_base(rng, setup):
     kn = flat.Knobs(max_models=2, p_unknown_event=0.0, max_history=4, p_queued=0.0, max_states=5, max_events=2)
     d = flat.gen_flat(rng, kn)
     d.model_attr = 'state'
-    d.qmode = rng.choice([0, 0, 1])
+    d.qmode = rng.choice([0, 0, 1, 2] if setup[3] else [0, 0, 1])      # async: also queued='model'
     d.queued = bool(d.qmode)
     d.kinds = {}
     d.const = {}
@@ -486,7 +486,7 @@ def na_judge(case):
                 dc.script[(cid, k)] = base.script[(cid, k)]
             clean_v = na_run(dc, setup)
             npos += 1
-            info = {'setup': setup[0], 'pos': pos, 'slot': common.SLOTS[it[1]], 'handlers': with_h, 'queued': bool(d.qmode)}
+            info = {'setup': setup[0], 'pos': pos, 'slot': common.SLOTS[it[1]], 'handlers': with_h, 'queued': aflat.QMODES[d.qmode] if setup[3] else bool(d.qmode)}
             fs = [(w, dict(dd, **info)) for w, dd in na_oracle(d, setup, clean_v.items, crash.items, cid, k, handlers)]
             if crash.bad:
                 fs.append(('arguments', dict(info, bad=crash.bad[:3])))
